@@ -537,6 +537,10 @@ func (seqEngine) Gen(prop string, seed uint64, tier string) *Spec {
 	if rng.Chance(0.10) {
 		drainAt = rng.Intn(n)
 	}
+	overAt := -1
+	if rng.Chance(0.12) {
+		overAt = rng.Intn(n)
+	}
 	fillAt := -1
 	if knobs["nospace"] == 1 && knobs["crash"] == 0 && rng.Chance(0.3) {
 		fillAt = rng.Intn(n)
@@ -621,6 +625,54 @@ func (seqEngine) Gen(prop string, seed uint64, tier string) *Spec {
 				}
 			}
 			g.emit(&Op{K: "rmdir", H: 0, N: fmt.Sprintf("drain%d", i)})
+			continue
+		}
+		if i == overAt {
+			// renames over existing targets of every combination of kinds, inside one
+			// parent and between two (a directory over an empty directory, over a
+			// non-empty one, a file over a file, mixed kinds, onto itself), then
+			// everything below the two parents is removed and the parents themselves:
+			// the link counts the renames left behind decide whether they are freed
+			par := 0
+			if d := g.pickObj(kDIR); d != nil && rng.Chance(0.5) {
+				par = g.ref(d)
+			}
+			g.emit(&Op{K: "mkdir", H: par, N: fmt.Sprintf("ovP%d", i)})
+			pid := g.ops[len(g.ops)-1].ID
+			g.emit(&Op{K: "mkdir", H: par, N: fmt.Sprintf("ovQ%d", i)})
+			qid := g.ops[len(g.ops)-1].ID
+			for _, d := range []int{pid, qid} {
+				for _, nm := range []string{"A", "B", "C"} {
+					g.emit(&Op{K: "mkdir", H: d, N: nm})
+					if nm == "C" && rng.Chance(0.5) {
+						g.emit(&Op{K: "create", H: g.ops[len(g.ops)-1].ID, N: "x", How: 1})
+					}
+				}
+				for _, nm := range []string{"f", "g"} {
+					g.emit(&Op{K: "create", H: d, N: nm, How: 1})
+				}
+			}
+			for j := 0; j < 2+rng.Intn(5); j++ {
+				from, to := pid, pid
+				if rng.Chance(0.35) {
+					to = qid
+				}
+				if rng.Chance(0.2) {
+					from, to = to, from
+				}
+				names := []string{"A", "A", "B", "C", "f", "g"}
+				g.emit(&Op{K: "rename", H: from, N: names[rng.Intn(len(names))], H2: to, N2: names[rng.Intn(len(names))]})
+			}
+			if rng.Chance(0.3) {
+				g.emit(&Op{K: "restart"})
+			}
+			for _, d := range []int{pid, qid} {
+				if o := g.objOfRef(d); o != nil && o.Live {
+					g.emitDeleteBelow(o)
+				}
+			}
+			g.emit(&Op{K: "rmdir", H: par, N: fmt.Sprintf("ovP%d", i)})
+			g.emit(&Op{K: "rmdir", H: par, N: fmt.Sprintf("ovQ%d", i)})
 			continue
 		}
 		if i == burstAt {
@@ -744,7 +796,10 @@ func (seqEngine) Gen(prop string, seed uint64, tier string) *Spec {
 
 // emitDeleteAll appends removals of everything the predictive model holds
 // (children before parents).
-func (g *seqGen) emitDeleteAll() {
+func (g *seqGen) emitDeleteAll() { g.emitDeleteBelow(g.m.Objs[g.m.Root]) }
+
+// emitDeleteBelow appends removals of everything below directory top.
+func (g *seqGen) emitDeleteBelow(top *MObj) {
 	var walk func(d *MObj)
 	walk = func(d *MObj) {
 		for _, n := range sortedNames(d.Kids) {
@@ -757,7 +812,7 @@ func (g *seqGen) emitDeleteAll() {
 			}
 		}
 	}
-	walk(g.m.Objs[g.m.Root])
+	walk(top)
 }
 
 // ---- execution ----
